@@ -97,6 +97,23 @@ impl QSrv {
         self.arm();
         Ok(n)
     }
+    /// Like `fetch_all` but stops after `max` chains (hostile workloads scribble over the available
+    /// index, after which "every new chain" can mean 65535 of them).
+    pub fn fetch_some(&mut self, max: usize) -> Result<usize, String> {
+        let mut n = 0;
+        while n < max {
+            let Some(ch) = self.dev.fetch()? else { break };
+            if ch.indirect {
+                self.indirect_seen += 1;
+            }
+            self.chains_seen += 1;
+            self.held.push_back(ch);
+            n += 1;
+        }
+        self.notified = false;
+        self.arm();
+        Ok(n)
+    }
     /// Complete a held chain (by position in `held`): write `data` into its writable part and publish.
     pub fn complete_at(&mut self, i: usize, data: &[u8], len: Option<u32>) -> Result<Chain, String> {
         let ch = self.held.remove(i).ok_or("no such held chain")?;
